@@ -39,16 +39,17 @@ type opRec struct {
 }
 
 type histCfg struct {
-	name      string
-	seed      uint64
-	clients   int
-	keys      int
-	duration  time.Duration
-	nonVoting bool
-	restart   bool
-	faults    bool
-	snapEvery uint64
-	paceMs    int // mean pause between two operations of one client
+	name        string
+	seed        uint64
+	clients     int
+	keys        int
+	duration    time.Duration
+	nonVoting   bool
+	restart     bool
+	faults      bool
+	snapEvery   uint64
+	paceMs      int // mean pause between two operations of one client
+	checkQuorum bool
 }
 
 type cluster struct {
@@ -80,7 +81,7 @@ func (c *cluster) raftConfig(replica uint64, nonVoting bool) config.Config {
 		ShardID:            shardID,
 		ElectionRTT:        10,
 		HeartbeatRTT:       1,
-		CheckQuorum:        true,
+		CheckQuorum:        c.cfg.checkQuorum,
 		SnapshotEntries:    c.cfg.snapEvery,
 		CompactionOverhead: 5,
 		IsNonVoting:        nonVoting,
@@ -104,7 +105,7 @@ var quietOnce sync.Once
 // quietLogger discards the library's log text; Panicf keeps its meaning.
 type quietLogger struct{}
 
-func (quietLogger) SetLevel(logger.LogLevel)                  {}
+func (quietLogger) SetLevel(logger.LogLevel)                    {}
 func (quietLogger) Debugf(format string, args ...interface{})   {}
 func (quietLogger) Infof(format string, args ...interface{})    {}
 func (quietLogger) Warningf(format string, args ...interface{}) {}
@@ -390,6 +391,18 @@ func (c *cluster) restartHost(i int, r *vh.Rand) {
 	c.set(i, nh2)
 }
 
+// leader returns the replica id some live host currently believes to lead (0 = unknown).
+func (c *cluster) leader() uint64 {
+	for i := range c.hosts {
+		if nh := c.get(i); nh != nil {
+			if lid, _, ok, _ := nh.GetLeaderID(shardID); ok {
+				return lid
+			}
+		}
+	}
+	return 0
+}
+
 func (c *cluster) nemesis(stop <-chan struct{}, wg *sync.WaitGroup) {
 	defer wg.Done()
 	r := vh.NewRand(c.cfg.seed*77 + 5)
@@ -410,7 +423,19 @@ func (c *cluster) nemesis(stop <-chan struct{}, wg *sync.WaitGroup) {
 			c.restartHost(r.Intn(3), r)
 			continue
 		}
-		switch r.Intn(8) {
+		switch r.Intn(10) {
+		case 8, 9: // isolate the current leader (both directions)
+			if lid := c.leader(); lid > 0 {
+				c.net.heal()
+				v := int(lid - 1)
+				for j := range c.addrs {
+					if j != v {
+						c.net.block(c.addrs[v], c.addrs[j])
+						c.net.block(c.addrs[j], c.addrs[v])
+					}
+				}
+				c.note("partition_leader")
+			}
 		case 0, 1:
 			c.net.heal()
 			c.note("heal")
